@@ -317,6 +317,10 @@ func isReqSatisfiedByUserSig(sigReq SignatureReq, sig *UserSigEx) bool {
 	if sigReq.RevTimes == nil || sig.RevTime == nil {
 		return sig.Tag == sigReq.Tag
 	}
+	if sigReq.RevTimes.MinRevTime == nil && sigReq.RevTimes.MaxRevTime == nil {
+		// the requirement only names the tag: any revision is acceptable
+		return true
+	}
 	if sigReq.RevTimes.MinRevTime != nil && sigReq.RevTimes.MaxRevTime != nil {
 		return sig.RevTime.Before(*sigReq.RevTimes.MaxRevTime) && sig.RevTime.After(*sigReq.RevTimes.MinRevTime)
 	}
